@@ -160,6 +160,13 @@ func (wkTransport) RoundTrip(req *http.Request) (*http.Response, error) {
 	case strings.HasPrefix(wk, "json:"):
 		b := []byte(wk[5:])
 		return mk(200, b, sc.Headers, int64(len(b))), nil
+	case strings.HasPrefix(wk, "doc:"):
+		b, declared := wkDoc(wk)
+		n := int64(-1)
+		if declared {
+			n = int64(len(b))
+		}
+		return mk(200, b, sc.Headers, n), nil
 	case wk == "big-header": // small body, but the server declares more than 50 KiB
 		b := []byte(`{"m.server":"delegated.org"}`)
 		return mk(200, b, sc.Headers, 51201), nil
@@ -295,9 +302,23 @@ func refStep(sc *scenario, name string, wellKnown bool) (out []rr, wantErr bool,
 }
 
 // refWellKnown: (delegated name, honoured, open) — honoured iff status 200, at most 50 KiB, JSON with a non-empty m.server
+// wkDoc decodes the mode "doc:<cl|nocl>:<pad>:<trailer>": the document {"m.server":"delegated.org"} followed by <pad> spaces
+// and the trailer, sent with or without a Content-Length.
+func wkDoc(wk string) (body []byte, declared bool) {
+	parts := strings.SplitN(wk, ":", 4)
+	n, _ := strconv.Atoi(parts[2])
+	return []byte(`{"m.server":"delegated.org"}` + strings.Repeat(" ", n) + parts[3]), parts[1] == "cl"
+}
+
 func refWellKnown(sc *scenario) (string, bool, bool) {
 	wk := sc.WellKnown
 	switch {
+	case strings.HasPrefix(wk, "doc:"):
+		b, _ := wkDoc(wk)
+		if len(b) > 51200 || !json.Valid(b) {
+			return "", false, false
+		}
+		return "delegated.org", true, false
 	case strings.HasPrefix(wk, "json:"):
 		var v struct {
 			M interface{} `json:"m.server"`
@@ -894,5 +915,23 @@ func run(r *harness.Run) {
 			}
 		}
 	}
+	// documents with something after the closing brace, at every distance that matters to a reader working in blocks (the
+	// first block, the 512-byte and 4 KiB buffer sizes, the 50 KiB limit itself), with and without a Content-Length
+	docN := 0
+	base := len(`{"m.server":"delegated.org"}`)
+	for _, framing := range []string{"cl", "nocl"} {
+		for _, pad := range []int{0, 1, 512 - base - 1, 512 - base, 512, 4096 - base, 4096, 51200 - base - 1, 51200 - base, 51200 - base + 1, 60000} {
+			for _, trailer := range []string{"", "}", "]", " }", "\n]", "x", "{}", ",", "\"", "0", "null", `{"m.server":"other.org"}`, "}}", "\x00"} {
+				for _, h := range []map[string]string{nil, {"Cache-Control": "max-age=60"}} {
+					c := wkCase{fmt.Sprintf("doc:%s:%d:%s", framing, pad, trailer), h}
+					docN++
+					if err := checkWellKnown(r, c); err != nil {
+						r.Violation("wellknown:"+harness.J(c), err.Error(), "wellknown", c)
+					}
+				}
+			}
+		}
+	}
+	r.Count("wellknown_documents_with_trailers", int64(docN))
 	r.Sample("wellknown", wkCase{"big-padded", nil})
 }
